@@ -265,6 +265,16 @@ class Scen(srvlib.HistGen):
                     nf = r.choice(FRAG_BOUNDARIES + [7, 33, 150, 0, 1])
                     self.nreq(s, nf)                                       # N in mid-transfer
                     self.cstats['n_mid'] += 1
+                elif x < 0.97:
+                    # an option command after the size was set (a relay re-sending the client's own 'O' / 'S' late): the size stays.
+                    # NULL / PRIVATE answers do not depend on the downstream codec, Base32 upstream is what the session uses anyway
+                    cm = b32c(r.randrange(32)) + b32c(r.randrange(32)) + b32c(r.randrange(32))
+                    if r.randrange(3):
+                        self.send_query(s.addr, b'o' + b32c(s.uid) + bytes([r.choice(b'tsuvrTSUVR')]) + cm + b'.' + self.domain)
+                    else:
+                        self.send_query(s.addr, b's' + b32c(s.uid) + b32c(5) + cm + b'.' + self.domain)
+                    self.touch(s)
+                    self.cstats['option_after_N'] = self.cstats.get('option_after_N', 0) + 1
                 else:
                     self.sweep()
                 self.tick()
